@@ -288,6 +288,9 @@ func (w *World) Range(lo, hi int) int {
 // Pick draws one of the given values; the first is the benign one.
 func (w *World) Pick(vals ...int) int { return vals[w.Choose(len(vals))] }
 
+// Pick2 draws one of the given strings; the first is the benign one.
+func (w *World) Pick2(vals ...string) string { return vals[w.Choose(len(vals))] }
+
 func (w *World) Tape() []uint32 { return w.tape }
 
 // DataByte / DataBytes come from a PRNG stream that depends on the seed only
